@@ -1211,6 +1211,32 @@ def r711(e: Engine, rep: Report):
                   'with no MAIL / RCPT / DATA before it' % (name, what),
                   loc=fns[1].loc(), reason='%r not in the command alphabet '
                   '[%s]' % (outside[:1], shown))
+    # pseudo-commands handle() itself starts the loop with: constants of
+    # handle() that name a _command_<X> method
+    srv0 = e.p.cls(SERVER)
+    hfn = e.method_ctx(SERVER, 'handle').func
+    for x in walk_own(hfn.node):
+        if not (isinstance(x, ast.Constant) and
+                isinstance(x.value, (bytes, str))):
+            continue
+        nm = x.value.decode('latin1') if isinstance(x.value, bytes) \
+            else x.value
+        if not nm or ('_command_' + nm) not in srv0.methods or \
+                nm in PROTECTED_NAMES:
+            continue
+        rep.evaluations += 1
+        outside = [ch for ch in nm if ord(ch) not in alpha]
+        rep.check(bool(outside), 'R7.11', srv0.methods['_command_' + nm].qname,
+                  'server-initiated step `%s` cannot be spelled by a client'
+                  % nm,
+                  'handle() runs `_command_%s` on its own initiative (it '
+                  'starts the session with that name), and the name is made '
+                  'of command-alphabet characters only: a client that sends '
+                  'the line `%s` has the step run in the middle of the '
+                  'session, where nothing of the session state is reset '
+                  'around it' % (nm, nm),
+                  loc=srv0.methods['_command_' + nm].loc(),
+                  reason='%r not in the command alphabet' % outside[:1])
     # hooks the server runs on its own initiative (names it hands to
     # _call_custom_handler itself and that are no client verb with a
     # guarded _command_<NAME>): a handler class of the package that defines
